@@ -738,13 +738,13 @@ def run(ctx):
     if sum(len(t) for t in rtraces) < (600 if quick else 15000):
         raise MachineryError('too few random-graph events')
 
-    if quick:   # all breaching replay events + a seeded sample of the others
-        idx = [i for i, r in enumerate(trace_src) if is_breach(r)]
-        rest = [i for i, r in enumerate(trace_src) if not is_breach(r)]
-        ctx.rng.shuffle(rest)
-        idx = sorted(idx + rest[:1500])
-        traces = [traces[i] for i in idx]
-        trace_src = [trace_src[i] for i in idx]
+    # TLC judges all breaching replay events + a seeded sample of the others (single worker)
+    idx = [i for i, r in enumerate(trace_src) if is_breach(r)]
+    rest = [i for i, r in enumerate(trace_src) if not is_breach(r)]
+    ctx.rng.shuffle(rest)
+    idx = sorted(idx + rest[:1500 if quick else 20000])
+    traces = [traces[i] for i in idx]
+    trace_src = [trace_src[i] for i in idx]
     all_traces = traces + rtraces
     ctx.log('validating %d traces, %d events' % (len(all_traces), sum(map(len, all_traces))))
     tcfg = os.path.join(ctx.tmp, 'trace.cfg')
